@@ -731,6 +731,22 @@ def replay_concrete(prog, cj, model, arrays, pos_names):
                                             with np.errstate(all="ignore"):
                                                 dd = np.nan_to_num(np.abs(q - r64), nan=np.inf)
                                             deltas.append(np.full_like(dd, np.inf) if clipped_side else dd)
+                                            if not strict64:
+                                                # JAX's OWN single-precision error in this 1-ulp neighbourhood: where its
+                                                # float32 evaluation of a neighbouring input disagrees with the x64
+                                                # evaluation of the same input (a decision taken on rounded
+                                                # intermediates, e.g. softmax of logits of magnitude 1e10), the
+                                                # float32 reference is not reliable here; an exact tie (round(2.5))
+                                                # shows no such disagreement and stays in
+                                                try:
+                                                    j32p = np.asarray(jax_eval(cj, [np.asarray(a) for a in pert], prog.x64)[i], dtype=np.float64)
+                                                    if i in out_nchw and j32p.ndim == 4:
+                                                        j32p = np.transpose(j32p, (0, 3, 1, 2))
+                                                    if j32p.shape == q.shape:
+                                                        with np.errstate(all="ignore"):
+                                                            own = np.maximum(own, np.nan_to_num(np.abs(j32p - q), nan=0.0, posinf=0.0))
+                                                except Exception:
+                                                    pass
                                 if len(deltas) == 2:
                                     own = np.maximum(own, np.minimum(deltas[0], deltas[1]))
                             # where a 1-ulp input change moves the reference by more than a quarter of its
